@@ -714,6 +714,208 @@ def abstract_cycle(view: View, cyc: dict) -> dict | None:
             "carried_after": ((ma.get("remaining_patch") or {}).get("fns") or 0) if cyc.get("mem_after") is not None else None}
 
 
+# ---- (A) trace acceptance: the labels of a run, replayed through `lstep` -----------------------------------
+def trace_items(view: View) -> tuple[dict, list, dict] | None:
+    """One label per real step of the object's life (foreign write / mark / finalizer edit / cycle start on ITS
+    event body / merge-patch response / JSON-patch outcome / touch / restart), each with the snapshot of the
+    abstract state the real server and operator are in right after it. None if the model's aggregation is not
+    exact for this scenario (more than one mandatory deletion handler or more than one daemon/timer)."""
+    sc, tr = view.sc, view.tr
+    dels = [h for h in view.handlers if h["kind"] == "delete" and any(not o.get("optional") for o in _regs(h))]
+    spawns = [h for h in view.handlers if h["kind"] in SPAWNING_KINDS]
+    if len(dels) > 1 or len(spawns) > 1 or any(o.get("optional") for h in dels for o in _regs(h)) or sc.get("status_subresource"):
+        return None
+    hdel = dels[0] if dels else None
+    hsp = spawns[0] if spawns else None
+    uids = view.uids()
+    if len(uids) != 1:
+        return None
+    uid = uids[0]
+    vs = view.versions(uid)
+    idx = {(_meta(v["body"]).get("resourceVersion")): i for i, v in enumerate(vs) if v["event"] != "DELETED"}
+
+    def mdel(labels: dict) -> bool:
+        return bool(hdel and _mandatory(hdel, labels))
+
+    def mdmn(labels: dict) -> bool:
+        return bool(hsp and _match(hsp, labels))
+
+    def server(i: int) -> dict:
+        b = vs[i]["body"]
+        if vs[i]["event"] == "DELETED":
+            return {"gone": True}
+        return {"gone": False, "marked": bool(_meta(b).get("deletionTimestamp")), "fins": _fins(b), "rv": i,
+                "matchDel": mdel(_labels(b)), "matchDmn": mdmn(_labels(b))}
+
+    def jkey(tj: float, t: float, merge_idx: int | None, seq: int) -> tuple:
+        """Where the end of a cycle's JSON-patch step sorts: right after the cycle's own merge write if that happened at
+        the same instant; else before foreign writes of the same instant (a slip is placed at the NEXT request)."""
+        if merge_idx is not None:
+            return (tj, 0, merge_idx + 0.5)
+        return (tj, -1 if tj > t else 1, seq)
+
+    items: list[tuple] = []      # (t, rank, seq, label, expectation-or-None, kind)
+    note: dict[str, Any] = {"truncated": None}
+    req_label: dict[int, tuple] = {}     # id(request) -> (label, cycle) for the operator's writing requests
+    # ---- cycles
+    incs = {m["inc"]: m["t"] for m in tr["marks"] if m["what"] == "start"}
+    for cyc in tr["cycles"]:
+        if cyc.get("uid") != uid:
+            continue
+        ap = cyc.get("apply")
+        if cyc.get("event_type") == "DELETED":
+            continue
+        if not ap:
+            note.setdefault("cut_cycles", 0)
+            note["cut_cycles"] += 1
+            continue
+        vi = idx.get(cyc.get("rv"))
+        if vi is None:
+            return None
+        body = cyc["body"]
+        labels = _labels(body)
+        mb = cyc.get("mem_before") or {}
+        running = set(mb.get("running_daemons") or [])
+        forever = set(mb.get("forever_stopped") or [])
+        pcc = cyc.get("pcc")
+        n_sp = len(ap.get("delays") or []) - (len(pcc.get("delays", [])) if pcc else 0)
+        marked_v = bool(_meta(body).get("deletionTimestamp"))
+        live = bool(hsp and hsp["id"] in running)
+        if live and (marked_v or not mdmn(labels)) and n_sp <= 0:
+            live = False       # exited within the stop call, or abandoned after its timeouts: no delay is reported any more
+        seq = cyc["i"] * 10
+        t = ap["t"]
+        if hsp:
+            items.append((t, 1, seq, ["syncDaemon", live, bool(hsp["id"] in forever)], None, "sync"))
+        done_after = bool(hdel and view.finished(hdel, uid, t, upto=cyc["i"]))
+        if hdel:
+            items.append((t, 1, seq + 1, ["syncDone", done_after], None, "sync"))
+        merge, js = _main_requests(view, cyc)
+        if merge is not None and _touch_only(merge) and not ap["patch"]:
+            merge = None
+        carried = ((mb.get("remaining_patch") or {}).get("fns") or 0)
+        new = list(ap["fns"][carried:])
+        chg_hs = [h for h in view.handlers if h["kind"] in CHANGING_KINDS]
+        changing = any(_match(h, labels) for h in chg_hs)
+        early = bool(cyc.get("cause") is not None and changing and pcc is None and not new)
+        mchg = bool(merge is not None and merge.get("response") == 200 and isinstance(merge.get("result"), dict)
+                    and any(v["event"] != "DELETED" and v["t"] == merge["t"] + LAT and
+                            _meta(v["body"]).get("resourceVersion") == _meta(merge["result"]).get("resourceVersion") for v in vs))
+        env = {"consistent": not early, "merge": merge is not None,
+               "otherChanging": any(_match(h, labels) for h in chg_hs if h is not hdel),
+               "otherDelays": bool(pcc and pcc.get("delays")), "mergeChanges": mchg,
+               "delReset": bool(pcc is not None and not done_after)}
+        snap = {"rv": vi, "marked": marked_v, "fins": _fins(body), "matchDel": mdel(labels), "matchDmn": mdmn(labels)}
+        exp: dict[str, Any] = {"pending": {"fns": list(ap["fns"]), "merge": merge is not None, "view": _fins(body),
+                                           "fresh": None}, "cycDelays": bool(ap.get("delays"))}
+        if hdel:
+            exp["delDone"] = done_after
+        items.append((t, 1, seq + 2, ["decide", env, snap], exp, "decide"))
+        if "remaining_fns" not in ap:
+            note.setdefault("cut_cycles", 0)
+            note["cut_cycles"] += 1     # killed inside apply: what was sent is replayed below, a restart follows
+        tj = t
+        merge_idx = None
+        if merge is not None:
+            tj = merge["wall"] + LAT
+            if merge.get("response") != 200:
+                note["truncated"] = note["truncated"] or f"merge patch answered {merge.get('response')}"
+                items.append((tj, 1, seq + 3, None, None, "stop"))
+                continue
+            if mchg:
+                req_label[id(merge)] = (["merge"], cyc)
+                merge_idx = idx.get(_meta(merge["result"]).get("resourceVersion"))
+            else:
+                items.append((tj, -1 if tj > t else 1, seq + 3, ["merge"], {}, "merge"))   # its response precedes a slip at the same instant
+        if "remaining_fns" not in ap and js is None:
+            continue
+        if js is not None:
+            tj = js["wall"] + LAT
+            forced = bool(js.get("fault"))
+            if js.get("response") == 200:
+                req_label[id(js)] = (["json", False], cyc)
+            elif js.get("response") == 422:
+                items.append((*jkey(tj, t, merge_idx, seq + 4), ["json", forced], {"pending": None, "mem": []}, "json"))
+            else:
+                note["truncated"] = note["truncated"] or f"JSON patch answered {js.get('response')}"
+                items.append((tj, 1, seq + 4, None, None, "stop"))
+                continue
+        else:
+            expj: dict[str, Any] = {"pending": None, "mem": []}
+            items.append((*jkey(tj, t, merge_idx, seq + 4), ["json", False], expj, "json"))
+        for r in _cycle_requests(view, cyc):
+            if r is not merge and r is not js and _touch_only(r) and r.get("response") == 200:
+                req_label[id(r)] = (["touch"], cyc)
+    # ---- restarts
+    starts = sorted(m["t"] for m in tr["marks"] if m["what"] == "start")
+    for t in starts[1:]:
+        items.append((t, 2, 0, ["restart"], {"pending": None, "mem": []}, "restart"))
+    # ---- stored versions, in order
+    for i in range(1, len(vs)):
+        prev, cur = vs[i - 1], vs[i]
+        w = view.writer(cur)
+        exp = server(i)
+        if w is not None:
+            lab = req_label.get(id(w))
+            if lab is None:
+                lab = (["write", exp.get("matchDel", False), exp.get("matchDmn", False)], None)   # a daemon's/timer's own patch
+                if cur["event"] == "DELETED":
+                    return None
+            items.append((cur["t"], 0, i, lab[0], exp, "own-write"))
+            continue
+        pb, cb = prev["body"], cur["body"]
+        if cur["event"] == "DELETED":
+            lab2 = ["editFins", []] if _meta(pb).get("deletionTimestamp") else ["mark"]
+            if OWN in _fins(pb):
+                note["truncated"] = note["truncated"] or "foreign force-delete of an object holding the own finalizer"
+                items.append((cur["t"], 0, i, None, None, "stop"))
+                continue
+        elif _meta(cb).get("deletionTimestamp") and not _meta(pb).get("deletionTimestamp"):
+            lab2 = ["mark"]
+        elif _fins(cb) != _fins(pb):
+            if (OWN in _fins(cb)) != (OWN in _fins(pb)):
+                note["truncated"] = note["truncated"] or "a foreign actor stripped the own finalizer"
+                items.append((cur["t"], 0, i, None, None, "stop"))
+                continue
+            lab2 = ["editFins", _fins(cb)]
+        else:
+            lab2 = ["write", exp["matchDel"], exp["matchDmn"]]
+        items.append((cur["t"], 0, i, lab2, exp, "foreign"))
+    items.sort(key=lambda x: (x[0], x[1], x[2]))
+    # ---- the queue the worker has in reality: one event per stored version, taken oldest first; a listing at (re)start
+    out: list = []
+    queue = [0]
+    cur_i = 0
+    for (t, rank, seq, lab, exp, kind) in items:
+        if kind == "stop":
+            break
+        exp = dict(exp) if exp is not None else {}
+        if kind in ("own-write", "foreign"):
+            cur_i = seq
+            if not exp.get("gone"):
+                queue = queue + [seq]
+            else:
+                exp = {"gone": True}
+        elif kind == "decide":
+            vi = lab[2]["rv"]
+            if not queue or queue[0] != vi:
+                note["truncated"] = note["truncated"] or f"cycle on version #{vi} while the oldest undelivered event is {queue[:1]} (events skipped or repeated)"
+                break
+            queue = queue[1:]
+            exp["pending"]["fresh"] = (vi == cur_i)
+        elif kind == "restart":
+            queue = [cur_i]
+        if kind != "sync" and not exp.get("gone"):
+            exp["queue"] = list(queue)
+        out.append([lab, exp])
+        if exp.get("gone"):
+            break
+    b0 = vs[0]["body"]
+    init = {"marked": bool(_meta(b0).get("deletionTimestamp")), "fins": _fins(b0),
+            "matchDel": mdel(_labels(b0)), "matchDmn": mdmn(_labels(b0))}
+    return init, out, note
+
+
 # ---- the oracle -------------------------------------------------------------------------------------
 def oracle(ctx: Ctx, sc: dict, tr: dict) -> dict:
     """Written from the property statement over the server-side history, the request log and the
@@ -923,6 +1125,18 @@ def run_scenarios(ctx: Ctx, scenarios: list[dict], names: list[str | None]) -> N
         if name is not None and name.startswith("F5") and len(ctx.failures) == before:
             ctx.notes.append(f"witness {name} no longer fails on this tree")
         view = View(sc, tr)
+        ti = trace_items(view)
+        if ti is None:
+            ctx.count("A.traces", "not eligible (aggregation of several handlers)")
+        else:
+            init, titems, tnote = ti
+            ctx.count("A.traces", "replayed" if not tnote["truncated"] else "replayed up to: " + str(tnote["truncated"])[:60])
+            ctx.count("A.labels", "total", len(titems))
+            for lab, _e in titems:
+                ctx.count("A.label_kinds", lab[0])
+            reqs.append(["C06.replay", OWN, init, titems])
+            impls.append({"accepted": len(titems)})
+            where.append({"scenario": sc, "what": "trace acceptance", "items": titems if len(titems) < 80 else titems[:80]})
         prev: dict[tuple, dict] = {}
         for cyc in tr["cycles"]:
             ab = abstract_cycle(view, cyc)
@@ -982,6 +1196,8 @@ def run_scenarios(ctx: Ctx, scenarios: list[dict], names: list[str | None]) -> N
         m = out[1]
         if req[0] == "C06.decide":
             ctx.compare("C06 decision block", impl, m, wh)
+        elif req[0] == "C06.replay":
+            ctx.compare("C06 trace acceptance (labels enabled in lstep, abstract state equal)", impl, m, wh)
         elif req[0] == "C06.sleeps":
             ctx.compare("C06 sleep-then-touch after delays", impl, m, wh)
         else:
